@@ -89,6 +89,7 @@ RPickName == /\ st = "name"
              /\ \E i \in DOMAIN SSRespNameSeq, prot \in BOOLEAN, who \in {"client", "other"} :
                   LET nm == SSRespNameSeq[i] IN
                   Emit([t |-> "r", g |-> g, cl |-> cl, prot |-> prot, who |-> who, q |-> nm.q, lc |-> nm.lc,
+                        v |-> [qt \in TQtypes |-> Answer(g, cl, who, prot, nm.lc, qt)],
                         o |-> [qt \in TQtypes |->
                                  {Response(v, nm.lc) : v \in Answer(g, cl, who, prot, nm.lc, qt)}]])
              /\ st' = "done"
